@@ -206,6 +206,11 @@ class Prov:
                "scope": " ".join(scope), "state": "st%d" % self.nonce, "nonce": "nonce-%d" % self.nonce}
         if "offline_access" in scope:
             req["prompt"] = "consent"
+        if self.nonce % 3 == 0:
+            # parameters the request class does not declare (what add-ons such as PKCE rely on) are part of the stored request
+            req["code_challenge"] = "E9Melhoa2OwvFrEMTJguCHaoeK1t8URWbuGJSstw-cM"
+            req["code_challenge_method"] = "S256"
+            req["x_note"] = "k=v&x y"
         return self._authz(req, user, cref)
 
     def _client_auth(self, cref, req, jti=None):
@@ -349,6 +354,17 @@ class Prov:
         return self._authz(req, user, cref)
 
     # ---- a state digest through the public API only (what the property calls "equivalent")
+    @staticmethod
+    def _msg_view(m):
+        """the stored request as parameter -> canonical text (what the provider will read from it later)"""
+        if m is None:
+            return None
+        try:
+            d = m.to_dict() if hasattr(m, "to_dict") else dict(m)
+        except Exception:
+            d = dict(getattr(m, "_dict", {}))
+        return {str(k): json.dumps(v, sort_keys=True, default=str) for k, v in sorted(d.items()) if not str(k).startswith("__")}
+
     def snapshot(self):
         from idpyoidc.server.session.grant import Grant
         sm = self.ctx.session_manager
@@ -358,6 +374,7 @@ class Prov:
                 nodes[k if len(k.split(";;")) == 3 else "<sid-key>"] = {
                     "grant": True, "revoked": n.revoked, "used": n.used, "scope": n.scope, "sub": n.sub,
                     "expires_at": n.expires_at, "issued_at": n.issued_at,
+                    "authorization_request": self._msg_view(getattr(n, "authorization_request", None)),
                     "tokens": [[self.tokens.index(t.value) if t.value in self.tokens else -1, t.token_class, t.used,
                                 bool(t.revoked), t.expires_at, t.issued_at,
                                 self.tokens.index(t.based_on) if t.based_on in self.tokens else None,
